@@ -373,7 +373,8 @@ def mon_values(ctx):
                             (src["values"], src["dtype"], ctx.outcome[1], ctx.outcome[2]))
             if ctx.raised:
                 exc = ctx.outcome[1]
-                if exc != "ValueError" and exc not in _OK_NONCONV.get(name, ()):
+                as_error = exc.endswith("Warning") and getattr(ctx.env, "wfilter", None) == "error"
+                if exc != "ValueError" and exc not in _OK_NONCONV.get(name, ()) and not as_error:
                     if exc in ("TypeError", "AttributeError") and \
                             ("wrong_type" in ctx.labels):
                         pass
